@@ -177,7 +177,14 @@ def _py(R, rng, ctx):
                         z = {q: float(hx.data[j, 0]) + 0.3 * (j + 1) for j, q in enumerate(rd)}
                         try:
                             sm = e.sensor_model(est, cov, sensor_key=sn, sensor_reading=e.make_reading(sn, **z))
-                            o["sm_x"][sn], o["sm_P"][sn] = sm.state.data.copy(), sm.covariance.data.copy()
+                            cond = float(np.linalg.cond(e.sensor_prediction_uncertainty[sn]))
+                            if np.isfinite(cond) and cond <= 1e6:
+                                o["sm_x"][sn], o["sm_P"][sn] = sm.state.data.copy(), sm.covariance.data.copy()
+                                o.setdefault("cond", {})[sn] = cond
+                            else:
+                                # an ill-conditioned innovation covariance amplifies rounding differences between the
+                                # two (algebraically equal) programs without bound: outside the quantifier
+                                R.stats.inc("ill_conditioned_updates_not_compared")
                         except AssertionError:
                             R.stats.inc("sensor_update_covariance_assertion")
                     for v in vs:
@@ -211,7 +218,8 @@ def _py(R, rng, ctx):
                     A, B = np.asarray(a[key][sn]), np.asarray(b_[key][sn])
                     sc = max(1.0, float(np.max(np.abs(A), initial=0.0)))
                     for idx in np.ndindex(A.shape):
-                        _pair(R, f"{key}[{sn}]{list(idx)}", float(A[idx]), float(B[idx]), sc * (1e4 if key.startswith("sm") else 1.0), ww)
+                        fac = max(a.get("cond", {}).get(sn, 1.0), b_.get("cond", {}).get(sn, 1.0)) * 10 if key.startswith("sm") else 1.0
+                        _pair(R, f"{key}[{sn}]{list(idx)}", float(A[idx]), float(B[idx]), sc * fac, ww)
             if not R.samples:
                 R.samples.append({"kind": "py", "definition": K.brief_defn(defn), "point": pt,
                                   "cse_on": a["model"], "cse_off": b_["model"]})
